@@ -62,6 +62,10 @@ def build(rng):
                 src_stmt = rng.choice(prev)
                 prog.append([src_stmt[0], nm, copy.deepcopy(src_stmt[2])])
                 kinds[nm] = "bundle" if src_stmt[0] == "bun" else "dup"
+                if src_stmt[0] == "sig" and rng.random() < 0.4:
+                    # the duplicate drives an entity (may be inlined into it); the first name stays an output
+                    prog.append(["place", "lamp" + nm, "small-lamp", ["n", 2 * k], ["n", 30], None])
+                    prog.append(["set", "lamp" + nm, "enable", ["v", nm]])
                 continue
         if form == "foldcall":
             # a call with literal arguments folds to a constant at IR level
@@ -80,7 +84,8 @@ def build(rng):
         if form == "arith":
             prog.append(["sig", nm, ["p", ["b", rng.choice(["+", "-", "*"]), ["v", a], ["v", b]], types.fresh()]])
         elif form == "decider":
-            prog.append(["sig", nm, ["p", ["c", rng.choice(CMP_OPS), ["v", a], ["n", rng.randint(0, 20)]], types.fresh()]])
+            cmp_e = ["c", rng.choice(CMP_OPS), ["v", a], ["n", rng.randint(0, 20)]]
+            prog.append(["sig", nm, ["p", cmp_e, types.fresh()] if rng.random() < 0.6 else cmp_e])
         elif form == "sel":
             prog.append(["sig", nm, ["s", ["c", rng.choice(CMP_OPS), ["v", a], ["n", rng.randint(0, 20)]], ["v", b]]])
         elif form == "alias":
